@@ -580,6 +580,19 @@ func runEntryRules(c *core.Ctx, r *core.Report, rule string) {
 			}
 			return nil
 		}
+		// ... or the same state kept in a package-level object
+		t.field = func(ip *absint.Interp, obj *absint.Tok, name string, typ types.Type) absint.Value {
+			if obj == app {
+				return nil
+			}
+			if sl, isSl := typ.Underlying().(*types.Slice); isSl && len(run.Params) == 1 && types.Identical(sl, run.Params[0].Type().Underlying()) {
+				return &absint.List{Elems: []absint.Value{absint.NewTok("H1", "handler"), absint.NewTok("H2", "handler")}}
+			}
+			if b, isB := typ.Underlying().(*types.Basic); isB && b.Info()&types.IsString != 0 {
+				return absint.Str("")
+			}
+			return nil
+		}
 		ip := absint.New(t)
 		ip.IsLog, ip.InScope = core.IsLogCall, c.InScope
 		out := ip.Run(run, []absint.Value{&absint.List{Elems: []absint.Value{absint.NewTok("O1", "option"), absint.NewTok("O2", "option")}}}, nil)
